@@ -7,7 +7,7 @@ from .common import *
 
 META = {
     "level": "other",
-    "explanation": "Position contracts of the lazy classes, decided with the symbolic position algebra: (R1) Lazy._parse records offset = entry position, ends exactly at offset + _actualsize(...) whatever the size probe did to the stream, and its deferred parse seeks to the recorded offset, parses with the captured context/path and restores the position it found (position-neutral); (R2) LazyStruct/LazyArray._parse: offsets[0] is the entry position; in every iteration, on the sized path the stream is moved absolutely to offset+size and that same value is stored in offsets[i+1]; on the unsizable path the real parse starts at the member's offset (a size probe that failed half-way is undone), its value is cached under i, and offsets[i+1] is the position after it; (R3) LazyContainer/LazyListContainer.__getitem__ return the cached value if present, otherwise seek to offsets[index], parse with the captured context/path, cache under the same index, and leave the stream where they found it; writes touch only the cache; (R4) LazyStruct._build/_sizeof and LazyArray._build/_sizeof are path-for-path identical to Struct/Array (modulo Array's discard flag); (R5) closures patched onto macro instances as protocol methods have the arity of their call sites (instance attributes are not bound). R3 also decides enumeration: LazyListContainer.__iter__/__eq__/slices visit self[i] for i in index order over the parse-time count, LazyContainer.keys/values/items/__iter__ follow the struct's named members in declaration order, __eq__ is Container.__eq__.",
+    "explanation": "Position contracts of the lazy classes, decided with the symbolic position algebra: (R1) Lazy._parse records offset = entry position, ends exactly at offset + _actualsize(...) whatever the size probe did to the stream, and its deferred parse seeks to the recorded offset, parses with the captured context/path and restores the position it found (position-neutral); (R2) LazyStruct/LazyArray._parse: offsets[0] is the entry position; in every iteration, on the sized path the stream is moved absolutely to offset+size and that same value is stored in offsets[i+1]; on the unsizable path the real parse starts at the member's offset (a size probe that failed half-way is undone), its value is cached under i, and offsets[i+1] is the position after it; (R3) LazyContainer/LazyListContainer.__getitem__ return the cached value if present, otherwise seek to offsets[index], parse with the captured context/path, cache under the same index, and leave the stream where they found it; writes touch only the cache; (R4) LazyStruct._build/_sizeof and LazyArray._build/_sizeof are path-for-path identical to Struct/Array (modulo Array's discard flag); (R5) closures patched onto macro instances as protocol methods have the arity of their call sites (instance attributes are not bound). R3 also decides enumeration: LazyListContainer.__iter__/__eq__/slices visit self[i] for i in index order over the parse-time count, LazyContainer.keys/values/items/__iter__ follow the struct's named members in declaration order, __eq__ is Container.__eq__. (R7) what the lazy classes skip by _sizeof is what an eager parse would consume: sizeof term = parse amount = build amount for every class (shared with C05.R2).",
     "undecided": "Value equality under all access histories follows from R1-R3 only together with position independence of the members (no cross references), which the property assumes.",
     "trusted_base": ["python ast (3.12)", "sa.summ summariser", "sa.pos position algebra"],
     "assumptions": ["a size probe (_actualsize) may move the stream by an unknown amount (Prefixed/PrefixedArray read their length field)"],
@@ -288,6 +288,18 @@ def run(ctx):
             detail = "returns %s" % N.show(got)
     ctx.ob("C16.R6", cls_[0] if cls_ else mf, ok, "PrefixedArray._actualsize returns the bytes the count field took plus count * sizeof(element) -- independent of where the array starts (%s)" % detail, key="PrefixedArray probe amount")
     ctx.floor("C16.R6", 3)
+    # ---------------------------------------------------------------- R7 skipping a member by _sizeof lands where parsing it would: sizeof = parse amount for every class (shared with C05.R2)
+    from ..core import Ctx as _Ctx
+    from . import C05_amounts
+    sub = _Ctx("C05", ctx.tier, ctx.root, model=ctx.model)
+    sub._summ = summariser(ctx)
+    C05_amounts.run(sub)
+    for e in sub.errors:
+        ctx.error("shared C05 rules: " + e)
+    for o in sub.obligations:
+        if o.rule == "C05.R2":
+            ctx.ob("C16.R7", o.where, o.ok, o.what, key=o.key, loc=o.loc, detail=o.detail)
+    ctx.floor("C16.R7", 80)
 
     # ---------------------------------------------------------------- R4 clones
     def sigset(cls, meth, drop_discard=False):
